@@ -128,6 +128,7 @@ func runMx(init int32, progs [][]string, sched []string) string {
 
 	n := len(progs)
 	s := csched.New(n)
+	s.Timeout = 20 * time.Second
 	loom.VerifHook = s.Hook
 	defer func() { loom.VerifHook = nil }()
 	sm := &sim{s: s, n: n, ret: make([]string, n)}
@@ -138,7 +139,7 @@ func runMx(init int32, progs [][]string, sched []string) string {
 	var holder *realG
 	stuck := false
 	waitAcquire := func() { // one of the parked goroutines must take the mutex over
-		deadline := time.Now().Add(2 * time.Second)
+		deadline := time.Now().Add(20 * time.Second)
 		for time.Now().Before(deadline) {
 			for i, g := range parked {
 				select {
@@ -172,7 +173,7 @@ func runMx(init int32, progs [][]string, sched []string) string {
 				m.Unlock()
 				close(g.done)
 			}()
-			deadline := time.Now().Add(2 * time.Second)
+			deadline := time.Now().Add(20 * time.Second)
 			for {
 				select {
 				case <-g.acquired:
@@ -270,6 +271,7 @@ func runFl(init int64, progs [][]string, sched []string) string {
 	var f loom.Flag = loom.Flag(init)
 	n := len(progs)
 	s := csched.New(n)
+	s.Timeout = 20 * time.Second
 	loom.VerifHook = s.Hook
 	defer func() { loom.VerifHook = nil }()
 	sm := &sim{s: s, n: n, ret: make([]string, n)}
@@ -308,6 +310,7 @@ func runAi(init, limit int64, progs [][]string, sched []string) string {
 	x := init
 	n := len(progs)
 	s := csched.New(n)
+	s.Timeout = 20 * time.Second
 	loom.VerifHook = s.Hook
 	defer func() { loom.VerifHook = nil }()
 	sm := &sim{s: s, n: n, ret: make([]string, n)}
@@ -353,7 +356,7 @@ func cntReal(held bool, k int) string {
 		}()
 		// wait until the state word shows this goroutine as the holder or as one more waiter
 		expect++
-		deadline := time.Now().Add(2 * time.Second)
+		deadline := time.Now().Add(20 * time.Second)
 		for {
 			w := m.VerifMutexWord()
 			if int(w>>3)+int(w&1) == expect && w&1 == 1 && w&6 == 0 {
